@@ -7,7 +7,8 @@
 (* Events                                                                    *)
 (*   Pair      g1, g2, calls        every public function, both orders       *)
 (*   Triple    g1, g2, g3, calls    the three pairs (field pr = 12, 23, 13)  *)
-(*   NsRefusal g1, g2, calls        equal trees over two namespace objects   *)
+(*   NsRefusal g1, g2, calls        equal trees over two namespace objects,  *)
+(*             every function x flag value x none / one / both encoded       *)
 (*   Edit / Encode / Dist           one step of a history on two trees:      *)
 (*             pre-state g1, g2, c1, c2 (cached encodings as logged from     *)
 (*             tree.bipartition_encoding), post-state h1, h2, d1, d2         *)
@@ -76,6 +77,10 @@ InputsOk(gs) == IF \E i \in 1..Len(gs) : InputClause(gs[i]) # "ok"
                 ELSE IF \E i \in 1..Len(gs) : TreeTx(gs[i]) # TreeTx(gs[1]) THEN V("C04.InputWellFormed", "DifferentLeafSets")
                 ELSE None
 
+InputsEach(gs) == IF \E i \in 1..Len(gs) : InputClause(gs[i]) # "ok"
+                    THEN V("C04.InputWellFormed", InputClause(gs[CHOOSE i \in 1..Len(gs) : InputClause(gs[i]) # "ok"]))
+                  ELSE None
+
 \* ------------------------------------------------------------ Pair
 Ok(c) == c.raised = ""
 \* the harness logs the two orders of one function next to each other: calls[2k-1] = f(t1, t2), calls[2k] = f(t2, t1)
@@ -138,11 +143,16 @@ JudgeTriple(e) ==
          IN CatAll([i \in 1..Len(e.calls) |-> jc(e.calls[i])]) \o TriangleClauses(e.calls)
 
 \* ------------------------------------------------------------ different namespace objects
+\* calls carry flag (0 = default arguments, 1 = is_bipartitions_updated=False, 2 = True) and
+\* enc (how many of the two trees carried an encoding when the call was made)
+NsClass(api, flag, enc) == api \o (CASE flag = 0 -> "" [] flag = 1 -> ":updated=False" [] OTHER -> ":updated=True")
+                               \o (CASE enc = 0 -> ":none_encoded" [] enc = 1 -> ":one_encoded" [] OTHER -> ":both_encoded")
 JudgeNs(e) ==
     CatAll([i \in 1..Len(e.calls) |->
               LET c == e.calls[i] IN
               IF c.raised = "TaxonNamespaceIdentityError" THEN None
-              ELSE V("C04.DifferentNamespacesRefused", c.api \o (IF c.raised = "" THEN ":returned" ELSE ":raised:" \o c.raised))])
+              ELSE V("C04.DifferentNamespacesRefused",
+                     NsClass(c.api, c.flag, c.enc) \o (IF c.raised = "" THEN ":returned" ELSE ":raised:" \o c.raised))])
 
 \* ------------------------------------------------------------ histories
 HistActions == {"Edit", "Encode", "Dist"}
@@ -152,7 +162,13 @@ StaleCache(g, c) == c.has /\ CacheSet(c) # S(g)
 \* along the trace); only then is a caller's is_bipartitions_updated=True true for the edge lengths as well
 JudgeDist(e, clean) ==
     LET g1 == e.g1  g2 == e.g2  c == e.call  pre == InputsOk(<<g1, g2>>) IN
-    IF pre # None THEN pre
+    \* a history on trees over two namespace objects: every call is refused, whatever is encoded
+    IF ~e.samens
+      THEN (IF c.raised = "TaxonNamespaceIdentityError" THEN None
+            ELSE V("C04.DifferentNamespacesRefused",
+                   NsClass(c.api, IF c.flag THEN 2 ELSE 0, (IF e.c1.has THEN 1 ELSE 0) + (IF e.c2.has THEN 1 ELSE 0))
+                   \o (IF c.raised = "" THEN ":returned" ELSE ":raised:" \o c.raised)))
+    ELSE IF pre # None THEN pre
     ELSE LET stale == StaleCache(g1, e.c1) \/ StaleCache(g2, e.c2)
              e1 == Enc(g1)  e2 == Enc(g2)
              r == IF c.ord = 1 THEN Ref(g1, g2, e1, e2) ELSE Ref(g2, g1, e2, e1)
@@ -184,7 +200,8 @@ Judge(e) == CASE e.action = "Pair" -> JudgePair(e)
               [] e.action = "Triple" -> JudgeTriple(e)
               [] e.action = "NsRefusal" -> JudgeNs(e)
               [] e.action = "Dist" -> JudgeDist(e, PriorClean(e))
-              [] e.action \in {"Edit", "Encode"} -> InputsOk(<<e.h1, e.h2>>)
+              \* (between the two halves of an edit of both trees the leaf sets / rooting states differ)
+              [] e.action \in {"Edit", "Encode"} -> InputsEach(<<e.h1, e.h2>>)
 
 Init == l = 1 /\ bad = <<>> /\ st = [g1 |-> 0, g2 |-> 0, c1 |-> 0, c2 |-> 0, clean |-> <<FALSE, FALSE>>]
 Next == /\ l <= Len(Tr)
